@@ -30,7 +30,7 @@ CHECKS = {
    note='trusted: simulator fakes (transport, fork = deep copy with shared IPC objects, task processes with seeded runtime/exit code); client side and agent_0 are played by the driver; Continuous and (scheduler focus, JSRUN launch method configured) ContinuousJsrun schedulers',
    technique='deterministic simulation with fault injection: exactly-once oracle under thread interleaving'),
  'C08': dict(
-   text='full agent / scheduler focus with cancel requests naming seeded subsets at seeded and event-triggered instants; oracle: bystanders reach the outcome fixed by the workload and are never cancelled/lost, named tasks leave the wait pool, a named task whose process was alive when the request reached the executor - or which was spawned after the request had reached it - does not run to its natural end, resources via C03 ledger; focus raptor (10%): requests waiting in the scheduler's raptor backlog are named and must not be handed to the master later; focus e2e (15%): the request is issued through TaskManager.cancel_tasks and travels through forwarders and proxy, the named running process must be stopped within 3 virtual seconds (+ partition time). Sampling, not proof.',
+   text='full agent / scheduler focus with cancel requests naming seeded subsets at seeded and event-triggered instants; oracle: bystanders reach the outcome fixed by the workload and are never cancelled/lost, named tasks leave the wait pool, a named task whose process was alive when the request reached the executor - or which was spawned after the request had reached it - does not run to its natural end, resources via C03 ledger; focus raptor (10%): requests waiting in the raptor backlog of the scheduler are named and must not be handed to the master later; focus e2e (15%): the request is issued through TaskManager.cancel_tasks and travels through forwarders and proxy, the named running process must be stopped within 3 virtual seconds (+ partition time). Sampling, not proof.',
    ref='4 (C08)',
    note='trusted: simulator fakes (transport, fork = deep copy with shared IPC objects, task processes with seeded runtime/exit code); client side and agent_0 are played by the driver; Continuous and (scheduler focus, JSRUN launch method configured) ContinuousJsrun schedulers',
    technique='deterministic simulation: cancel-placement sweep, bystander/named outcome oracle'),
